@@ -4,7 +4,8 @@ with --keep, copy every confirmed seed that some check caught in the quick tier 
 import glob, os, re, subprocess, sys
 V = os.path.dirname(os.path.dirname(os.path.abspath(__file__)))
 conf = {}; res = {}
-files = glob.glob("/var/tmp/r9/*.log") + glob.glob("/var/tmp/r9-*.log")
+D = os.environ.get("SEEDLOGS", "/var/tmp/r9")
+files = glob.glob(D + "/*.log")
 files.sort(key=os.path.getmtime)
 for f in files:
     for line in open(f, errors="replace"):
